@@ -1113,7 +1113,13 @@ def judge_c03(case: dict[str, Any], res: dict[str, Any]) -> list[dict[str, Any]]
         if 'shape_error' in ob:
             out.append(_wit('return_shape', case, observed=ob['shape_error'], index=i))
             continue
-        if not ob.get('mapping_sane', False):
+        if not ob.get('mapping_sane', False) and inp['kind'] == 'list' and it['kind'] != 'circuit' \
+                and len(ob.get('pi') or []) == 1:
+            # C03's statement says nothing about the mappings returned with
+            # with_mapping=True; list mode submits Circuit(1) for non-circuit
+            # inputs and returns length-1 maps. Noted, not a C03 violation.
+            case.setdefault('_notes', []).append('mapping:wrong_length_in_list_mode')
+        elif not ob.get('mapping_sane', False):
             out.append(_wit(
                 'mapping:wrong_length_in_list_mode' if inp['kind'] == 'list' and it['kind'] != 'circuit'
                 and len(ob.get('pi') or []) == 1 else 'mapping:not_injective_logical_length',
